@@ -74,6 +74,15 @@ static void eval_type(CPPType *type, int depth) {
     st->is_copy_constructible();
     st->is_destructible();
     st->is_polymorphic();
+    st->is_trivial();
+    st->is_trivially_copyable();
+    st->is_standard_layout();
+    st->is_empty();
+    st->is_move_constructible();
+    st->is_copy_assignable();
+    st->is_move_assignable();
+    st->is_constructible(st);
+    st->is_base_of(st);
     CPPScope *scope = st->get_scope();
     if (scope) for (CPPDeclaration *d : scope->_declarations) eval_decl(d, depth + 1);
   } else if (CPPFunctionType *ft = type->as_function_type()) {
